@@ -3,7 +3,7 @@
    arbitrary world (so it applies at every deploy step of every history, with any filter/profile:
    [roots]/[D] are the render result for the selected targets); hypotheses wfD/wfM as in C05. *)
 From AP Require Import Base.Str Gen.Tables Model.Deploy Model.Crash Proofs.DeployP Proofs.ConvergeP Proofs.LedgerP Proofs.RollbackP Proofs.HistoryP
-  Proofs.CrashP Proofs.RerunP Proofs.RerunCrashP Proofs.ConsequencesP.
+  Proofs.CrashP Proofs.RerunP Proofs.RerunCrashP Proofs.ConsequencesP Proofs.BootstrapP.
 From AP Require Model.Render Proofs.RootsIndepP.
 Open Scope N_scope.
 
@@ -126,6 +126,16 @@ Theorem C15_roots_of_targets : forall c e prof filt D R,
   exists ts, Render.selected_targets c filt = Render.Ok ts /\ R = Render.dedup_roots (Render.all_roots e [] ts).
 Proof. exact RootsIndepP.render_roots_of_targets. Qed.
 Print Assumptions C15_roots_of_targets.
+
+(* the other entry points of the shared apply path: an applied bootstrap (also `init --bootstrap`: the same apply with
+   the same snapshot kind) lists every operator file of its desired state in the manifest of its best root *)
+Theorem C15_bootstrap_written_is_listed : forall w roots D pl w' d i r,
+  wfD roots D ->
+  bootstrap_cmd w roots D = (pl, w') -> pl <> [] ->
+  In d D -> best_root_idx roots (dtarget d) (dpath d) = Some i -> nth_error roots i = Some r ->
+  In (dkey d) (root_managed (files w') r).
+Proof. exact bootstrap_written_is_listed. Qed.
+Print Assumptions C15_bootstrap_written_is_listed.
 
 Example C15_continuity_refuted :
   let r := Build_root (s "codex") [s "h"; s "skills"] true in
